@@ -2,7 +2,8 @@
 //
 // A scenario is a script of steps executed on the REAL library:
 //
-//	b4.<p>.<m>.<ms> / b6.<p>.<m>.<ms>  start call p of Ping/Ping6 in its own goroutine (timeout ms) and wait
+//	b4.<p>.<m>.<tmo> / b6.<p>.<m>.<tmo> start call p of Ping/Ping6 in its own goroutine (timeout ARGUMENT tmo:
+//	                                   <ms> possibly 0 or negative, n<ns>, huge) and wait
 //	                                   until its Begin section is complete: m=g the echo request is on the
 //	                                   recording connection; m=w the connection's WriteTo failed and the call
 //	                                   returned; m=a address-family error, the call returned
@@ -94,7 +95,10 @@ type pingRun struct {
 	p       int
 	v6      bool
 	mode    byte
-	ms      int
+	tmoTok  string        // timeout field of the token: <ms>, n<ns> or huge
+	raw     time.Duration // the timeout ARGUMENT handed to Ping/Ping6
+	retAt   time.Time     // when the call returned
+	beginDone time.Time   // when its begin step finished
 	start   time.Time
 	done    chan error
 	res     string
@@ -208,7 +212,7 @@ func (e *executor) launch(pr *pingRun, gate chan struct{}) {
 
 func (e *executor) launchOn(pr *pingRun, gate chan struct{}, s *packet.Session) {
 	pr.done = make(chan error, 1)
-	pr.timeout = time.Duration(pr.ms) * time.Millisecond
+	pr.timeout = effTimeout(pr.raw)
 	dst := packet.Addr{MAC: peerMAC(pr.p), IP: pr.dstIP()}
 	if pr.mode == 'a' { // wrong address family for this call
 		if pr.v6 {
@@ -225,10 +229,11 @@ func (e *executor) launchOn(pr *pingRun, gate chan struct{}, s *packet.Session) 
 			<-gate
 		}
 		if pr.v6 {
-			err = s.Ping6(src, dst, pr.timeout)
+			err = s.Ping6(src, dst, pr.raw)
 		} else {
-			err = s.Ping(dst, pr.timeout)
+			err = s.Ping(dst, pr.raw)
 		}
+		pr.retAt = time.Now()
 		pr.done <- err
 	}()
 }
@@ -302,11 +307,38 @@ func parseB(tok string) (*pingRun, bool) {
 		return nil, false
 	}
 	p, e1 := strconv.Atoi(f[1])
-	ms, e2 := strconv.Atoi(f[3])
-	if e1 != nil || e2 != nil || p < 0 || ms <= 0 || ms > 10000 {
+	raw, ok := parseTmo(f[3])
+	if e1 != nil || !ok || p < 0 {
 		return nil, false
 	}
-	return &pingRun{p: p, v6: f[0] == "b6", mode: f[2][0], ms: ms, id: -1, hookID: -1}, true
+	return &pingRun{p: p, v6: f[0] == "b6", mode: f[2][0], tmoTok: f[3], raw: raw, id: -1, hookID: -1}, true
+}
+
+// parseTmo: <ms> (decimal, may be 0 or negative), n<ns>, huge (2^62 ns)
+func parseTmo(t string) (time.Duration, bool) {
+	switch {
+	case t == "huge":
+		return time.Duration(1) << 62, true
+	case strings.HasPrefix(t, "n"):
+		n, err := strconv.ParseInt(t[1:], 10, 64)
+		return time.Duration(n), err == nil
+	default:
+		ms, err := strconv.ParseInt(t, 10, 64)
+		if err != nil || ms > 1<<40 || ms < -(1<<40) {
+			return 0, false
+		}
+		return time.Duration(ms) * time.Millisecond, true
+	}
+}
+
+// effTimeout is the harness's own reading of the documented rule (README / doc comment of Ping):
+// a timeout that is not positive or is above 10 s means the 2 s default. Used to plan waits and
+// for the "early" oracle; never taken from the library.
+func effTimeout(raw time.Duration) time.Duration {
+	if raw <= 0 || raw > 10*time.Second {
+		return 2 * time.Second
+	}
+	return raw
 }
 
 func (e *executor) idFor(p int) (int, bool) {
@@ -406,6 +438,7 @@ func (e *executor) stepAt(toks []string, i int) int {
 		}
 		e.lin = append(e.lin, toks[j])
 		e.lastNW = time.Now()
+		pr.beginDone = e.lastNW
 		return j + 1
 	case strings.HasPrefix(tok, "asy:"):
 		parts := strings.Split(tok[4:], "|")
@@ -449,6 +482,7 @@ func (e *executor) stepAt(toks []string, i int) int {
 		}
 		e.lin = append(e.lin, parts[0], rl)
 		e.lastNW = time.Now()
+		pr.beginDone = pr.start // the injection is part of this step: it must lie before the expiry
 		return i + 1
 	case strings.HasPrefix(tok, "x."):
 		n, err := strconv.Atoi(tok[2:])
@@ -507,6 +541,7 @@ func (e *executor) step(tok string) {
 		e.waitBegun([]*pingRun{pr})
 		e.lin = append(e.lin, tok)
 		e.lastNW = time.Now()
+		pr.beginDone = e.lastNW
 	case strings.HasPrefix(tok, "par:"):
 		var prs []*pingRun
 		for _, t := range strings.Split(tok[4:], "|") {
@@ -539,9 +574,12 @@ func (e *executor) step(tok string) {
 		})
 		for _, pr := range prs {
 			e.order = append(e.order, pr)
-			e.lin = append(e.lin, fmt.Sprintf("b%s.%d.%c.%d", map[bool]string{false: "4", true: "6"}[pr.v6], pr.p, pr.mode, pr.ms))
+			e.lin = append(e.lin, fmt.Sprintf("b%s.%d.%c.%s", map[bool]string{false: "4", true: "6"}[pr.v6], pr.p, pr.mode, pr.tmoTok))
 		}
 		e.lastNW = time.Now()
+		for _, pr := range prs {
+			pr.beginDone = e.lastNW
+		}
 	case strings.HasPrefix(tok, "f."):
 		fr, ok := e.concretise(tok)
 		if !ok {
@@ -617,6 +655,7 @@ func runScript(next0 uint16, toks []string) (lin []string, obs string, jitter bo
 	n, nx := packet.VerifPingWaiters()
 	e.sizes = append(e.sizes, n)
 	var res, ids, sz []string
+	early := 0
 	for _, pr := range e.order {
 		r := pr.res
 		if r == "" || (!pr.waited && pr.mode == 'g') {
@@ -631,16 +670,21 @@ func runScript(next0 uint16, toks []string) (lin []string, obs string, jitter bo
 		default:
 			ids = append(ids, strconv.Itoa(pr.id))
 		}
-		// a call that timed out must not have seen any non-wait step after its earliest possible expiry
-		if pr.res == "timeout" && !pr.lastNW.Before(pr.start.Add(pr.timeout)) {
+		// a call that timed out must not have seen any non-wait step (other than its own begin) after
+		// its earliest possible expiry
+		if pr.res == "timeout" && pr.lastNW.After(pr.beginDone) && !pr.lastNW.Before(pr.start.Add(pr.timeout)) {
 			jitter = true
+		}
+		// oracle: ErrTimeout must not come before the EFFECTIVE timeout has elapsed
+		if pr.res == "timeout" && !pr.retAt.IsZero() && pr.retAt.Sub(pr.start) < pr.timeout {
+			early++
 		}
 	}
 	for _, s := range e.sizes {
 		sz = append(sz, strconv.Itoa(s))
 	}
 	obs = "res=" + strings.Join(res, ",") + ";ids=" + strings.Join(ids, ",") + ";sz=" + strings.Join(sz, ",") +
-		";next=" + strconv.Itoa(int(nx))
+		";next=" + strconv.Itoa(int(nx)) + ";early=" + strconv.Itoa(early)
 	return e.lin, obs, jitter
 }
 
